@@ -54,6 +54,31 @@ theorem kl_same_object (hc : Proved c) (hsh : ∀ k, sh k < n) (hr : (lts c n sh
     {t : Tid} {k : Key} {o : ObjId} {m : Mode} (h : (k, o, m) ∈ refs (s.th t)) : s.table k = some o :=
   (inv_reach hc n sh hsh s hr).refTab t k o m h
 
+/-! #### routing
+
+The transition system takes the routing function `sh` as a parameter: the shard of a key is a function of the key alone
+(of its bytes and the locker's shard count), the same at every step of every history and independent of anything else
+the process does. That is what lets the model keep ONE table keyed by the key; `routedTable` is the per-shard view. -/
+
+/-- the table of shard `i` as the code sees it: the entries of the keys routed to `i` -/
+def routedTable (sh : Key → Nat) (s : State) (i : Nat) (k : Key) : Option ObjId := if sh k = i then s.table k else none
+
+/-- **a held key's shard never changes**: the entry a thread registered on is found in the shard the routing function
+names — by the lock, by every later lock of another thread and by the unlock — and in no other shard -/
+theorem kl_route_stable (hc : Proved c) (hsh : ∀ k, sh k < n) (hr : (lts c n sh).Reach s)
+    {t : Tid} {k : Key} {o : ObjId} {m : Mode} (h : (k, o, m) ∈ refs (s.th t)) :
+    routedTable sh s (sh k) k = some o ∧ ∀ i, i ≠ sh k → routedTable sh s i k = none := by
+  refine ⟨?_, ?_⟩
+  · simp [routedTable, kl_same_object hc hsh hr h]
+  · intro i hi; simp [routedTable, Ne.symm hi]
+
+/-- … so a lookup that routed the same key differently (a routing that depends on history, on other containers, on a
+lookup memo) misses the entry: the unlock would meet a nil map entry and a second writer would get in -/
+theorem kl_reroute_misses_entry (hc : Proved c) (hsh : ∀ k, sh k < n) (hr : (lts c n sh).Reach s)
+    {t : Tid} {k : Key} {o : ObjId} {m : Mode} (h : (k, o, m) ∈ refs (s.th t)) (sh' : Key → Nat) (hne : sh' k ≠ sh k) :
+    routedTable sh s (sh' k) k = none :=
+  (kl_route_stable hc hsh hr h).2 (sh' k) hne
+
 /-- different keys never share an object (so a step on one key reads and writes no state of another key) -/
 theorem kl_key_objects_distinct (hc : Proved c) (hsh : ∀ k, sh k < n) (hr : (lts c n sh).Reach s)
     {k1 k2 : Key} {o : ObjId} (h1 : s.table k1 = some o) (h2 : s.table k2 = some o) : k1 = k2 :=
